@@ -554,7 +554,7 @@ pub fn c03(rep: &mut Report, tier: &str, seed: u64) {
         run_cmd4(rep, cfg, &caps, seed);
     }
     // decoder closure over all byte values (shared with C02)
-    let m = crate::e2::AccModel { bytes: (0u8..=255).collect(), prop: "C03" };
+    let m = crate::e2::AccModel { bytes: (0u8..=255).collect(), prop: "C03", refine: false };
     run_model(rep, &m, &caps, seed);
     // (3) large buffers: depth-bounded from the initial and from pre-filled states
     let big: Vec<(usize, usize)> = vec![(8, 16), (16, 8), (32, 32), (64, 64), (64, 1), (1, 64), (0, 64), (64, 0), (5, 6), (7, 9)];
